@@ -58,16 +58,51 @@ class Ctx:
         self.root = root
         self._progs = {}
         self.cfg_override = None
+        self.inline = False
         self.report = Report(pid, tier)
 
     def prog(self, cfg="trusted"):
         cfg = self.cfg_override or cfg
         p = self._progs.get(cfg)
         if p is None:
-            p = Program(cfg, root=self.root)
+            if self.inline:
+                from .inline import InlinedProgram
+                p = InlinedProgram(cfg, root=self.root)
+            else:
+                p = Program(cfg, root=self.root)
+                self.report.analysed[cfg] = stats(p)
             self._progs[cfg] = p
-            self.report.analysed[cfg] = stats(p)
         return p
+
+
+def run_rules(mod, ctx, known_keys):
+    """Evaluate the property's rules; instances that fail on the plain functions are re-evaluated on the
+    helper-inlined view (rules/inline.py) and count as violated only if they fail on both: extracting a block into a
+    private helper is behaviour-preserving and must not raise an alarm."""
+    rep = ctx.report
+    n0 = len(rep.results)
+    mod.run(ctx)
+    mine = rep.results[n0:]
+    failing = [r for r in mine if not r["ok"] and (ctx.pid, r["key"].split(":", 1)[1] if r["key"].startswith(("full:", "default:")) else r["key"]) not in known_keys]
+    if not failing or os.environ.get("ECHO_VERIF_NO_INLINE"):
+        return
+    ctx2 = Ctx(ctx.pid, ctx.tier, ctx.root)
+    ctx2.inline = True
+    ctx2.cfg_override = ctx.cfg_override
+    ctx2.report.prefix = rep.prefix
+    try:
+        mod.run(ctx2)
+    except AnchorMissing:
+        pass
+    except Exception:
+        rep.note("inlined-view pass aborted: " + traceback.format_exc().splitlines()[-1])
+    ok2 = {r["key"] for r in ctx2.report.results if r["ok"]}
+    bad2 = {r["key"] for r in ctx2.report.results if not r["ok"]}
+    for r in failing:
+        if r["key"] in ok2 and r["key"] not in bad2:
+            r["ok"] = True
+            r["detail"] = "holds on the helper-inlined view (a private helper carries the site): " + (r["detail"] or "")[:200]
+            rep.note("instance %s decided on the helper-inlined view" % r["key"])
 
 
 def load_known():
@@ -88,13 +123,14 @@ def run_property(pid, tier, root=None, write_evidence=True):
         # machinery self-check first: fixtures must produce exactly the expected verdicts
         from . import selfcheck
         selfcheck.run(rep)
-        mod.run(ctx)
+        known0 = {(k["property"], k["key"]) for k in load_known().get("findings", []) if k.get("status") == "known"}
+        run_rules(mod, ctx, known0)
         if tier == "thorough":
             # cross-configuration: the same rules must hold where test seams and delta validation are compiled in
             for cfg in getattr(mod, "THOROUGH_CONFIGS", ("full",)):
                 ctx.cfg_override = cfg
                 rep.prefix = cfg + ":"
-                mod.run(ctx)
+                run_rules(mod, ctx, known0)
             ctx.cfg_override = None
             rep.prefix = ""
             from . import witnesses
@@ -125,7 +161,8 @@ def run_property(pid, tier, root=None, write_evidence=True):
             listed.append(v)
         else:
             unlisted.append(v)
-    os.makedirs(REPLAY, exist_ok=True)
+    replay_dir = REPLAY if root is None else os.path.join(F.CACHE, "replay-root")
+    os.makedirs(replay_dir, exist_ok=True)
     for v in listed:
         kk = v["key"].split(":", 1)[1] if v["key"].startswith(("full:", "default:")) else v["key"]
         if v["key"] != kk:
@@ -133,7 +170,7 @@ def run_property(pid, tier, root=None, write_evidence=True):
         print("KNOWN-FINDING: property=%s %s — %s" % (pid, v["key"], known_keys[(pid, kk)].get("what", v["detail"])))
     for v in unlisted:
         safe = "".join(c if c.isalnum() or c in "-_." else "_" for c in v["key"])[:120]
-        rp = os.path.join(REPLAY, "%s-%s.json" % (pid, safe))
+        rp = os.path.join(replay_dir, "%s-%s.json" % (pid, safe))
         with open(rp, "w") as fh:
             json.dump({"property": pid, "rule": v["rule"], "key": v["key"], "detail": v["detail"], "site": v["site"],
                        "rule_text": rep.rules_applied.get(v["rule"], "")}, fh, indent=1)
@@ -199,7 +236,8 @@ def main():
     if a.replay:
         with open(a.replay) as fh:
             print(json.dumps(json.load(fh), indent=1))
-    sys.exit(run_property(a.pid, a.tier, a.root))
+    # a foreign checkout (self-test of the machinery) never rewrites the committed evidence
+    sys.exit(run_property(a.pid, a.tier, a.root, write_evidence=a.root is None))
 
 
 if __name__ == "__main__":
